@@ -292,7 +292,7 @@ def apply_exclusions(base: List[int], items, wf_off: int, cal: str):
             if not any(excluded(it, t, s0, wf_off, cal) for it in items)]
 
 
-# -- queries over the explicit ascending list ----------------------------------
+# -- queries over the explicit ascending list ------------------------------
 
 def nxt(S, p):
     for s in S:
